@@ -92,7 +92,9 @@ def run(rep: Report, tier: str) -> None:
                     break
             rep.case(("shared", m, r, tuple(seq)))
     # (3) stacks: default rule object shared by all stacks, several depths in one process, in random order
-    stack_depths = [1, 2, 3, 4, 5, 6, 7, 8] + ([] if quick else [64, 256])
+    # depths on both sides of every decimal-digit boundary of the child names ("9"/"10"/"11", "99"/"100"/"101"): the
+    # stack registers its layers under str(index), and the order they RUN in is the order read here (list(module))
+    stack_depths = [1, 2, 3, 4, 5, 6, 7, 8, 10, 11, 12, 21, 101] + ([] if quick else [9, 33, 64, 99, 100, 128, 255, 256])
     order = stack_depths * 2
     rng.shuffle(order)
     need = [{"mult": [1, 1], "ratio": [1, 1], "layers": d} for d in sorted(set(order))]
